@@ -7,7 +7,9 @@
      bookkeeping independently of the extractor: an `axis=` equal to the instance axis, an index
      tuple that drops it, a row loop reading another row, a mis-shaped allocation make this lemma
      fail (a broken tie).
-   - `expected_are_translated`: the methods below MUST be translated.  A change of the code that
+   - `expected_are_translated`: the methods below (and check_X of utils/validation/panel.py, the
+     function every estimator reads its input through: it must return the SAME rows in the same
+     positional order, possibly in the other container) MUST be translated.  A change of the code that
      takes one of them out of the language (a batch statistic, a sort, a cache on self, a
      position-dependent value ...) makes the extractor emit NotTranslated and this lemma fail.
      Methods that are not in this list stay "sampled only" (named in the evidence).
@@ -19,6 +21,7 @@ Import ListNotations.
 Open Scope string_scope.
 
 Definition expected_translated : list string := [
+  "check_X";
   "Catch22.transform";
   "ColumnConcatenator.transform";
   "DWTTransformer.transform";
